@@ -10,4 +10,12 @@ PROPS = {
                 "mutated copies), widths 1-300, both gap modes, random FASTA layout; run through snps.SNPs in-process; "
                 "non-trivial = some row or the reference carries a non-A/C/G/T symbol; distinct = distinct (ref, rows, mode)",
     },
+    "C17": {
+        "streams": {"C17": (2000, 30000)},
+        "thorough_seeds": 3,
+        "rule": "the finite tables are decided outright by the kernel on the regenerated dictionaries (3375 codons, 32 characters); "
+                "the stream runs alphabet.Translate (strict and lenient), Complement, ReverseComplement and the FastaRecord / "
+                "EncodedFastaRecord complement methods on random sequences (A/C/G/T, sprinkled or uniform IUPAC, gaps, lower case, "
+                "lengths not divisible by 3); non-trivial = the sequence contains a non-A/C/G/T symbol",
+    },
 }
